@@ -162,6 +162,11 @@ class VCGen(SpecMixin, CallMixin, StmtMixin, ExprMixin, Engine):
                     return
             val = cv
         fs = self.final_env(st, entry, val)
+        # vacuity probe: is this exit path satisfiable at all?  (`unsat` = the hypotheses collected along the path
+        # contradict each other -- a really infeasible branch, or an inconsistent callee contract; listed in the
+        # evidence under exit_paths_unreachable, never counted as an obligation)
+        self.add_vc('cover:exit@%s' % ('/'.join(list(st.trace)[-3:]) or 'top'), 'cover', fs, z3.BoolVal(True), fi.node,
+                    expect='sat-info')
         if c.detached is not None and self.in_coroutine:
             _rely.check_detached(self, c, fs, fi.node)
         for i, e in enumerate(c.ensures):
